@@ -80,6 +80,10 @@ func (d *Document) GenerateTOC(config *TOCConfig) error {
 		config = DefaultTOCConfig()
 	}
 
+	// 记住生成目录时使用的配置：UpdateTOC 必须按同样的级别和标题重建目录
+	remembered := *config
+	d.tocConfig = &remembered
+
 	// 收集标题信息
 	entries := d.collectHeadings(config.MaxLevel)
 
@@ -127,8 +131,11 @@ func (d *Document) UpdateTOC() error {
 	}
 
 	// 处理SDT类型的TOC
-	// 使用默认TOC配置
+	// 使用生成目录时的配置（级别、标题）；文档是打开的而非本次生成时使用默认配置
 	config := DefaultTOCConfig()
+	if d.tocConfig != nil {
+		config = d.tocConfig
+	}
 
 	// 重新收集标题信息
 	entries := d.collectHeadings(config.MaxLevel)
